@@ -277,11 +277,25 @@ type obs struct {
 	Err            string   `json:"err,omitempty"`
 }
 
+var (
+	portMu   sync.Mutex
+	portUsed = map[int]bool{}
+)
+
+// freePort: a loopback port nobody listens on and no other scenario of this run was given
 func freePort() int {
-	l, err := net.Listen("tcp", "127.0.0.1:0")
-	must(err)
-	defer l.Close()
-	return l.Addr().(*net.TCPAddr).Port
+	portMu.Lock()
+	defer portMu.Unlock()
+	for {
+		l, err := net.Listen("tcp", "127.0.0.1:0")
+		must(err)
+		p := l.Addr().(*net.TCPAddr).Port
+		l.Close()
+		if !portUsed[p] {
+			portUsed[p] = true
+			return p
+		}
+	}
 }
 
 func selfSigned(dir string) (string, string) {
@@ -598,6 +612,12 @@ func main() {
 		go func(i int) {
 			defer wg.Done()
 			res[i] = run(scs[i], rngs[i], cert, keyf)
+			// a node that could not even be brought up (a port taken by another process in the
+			// meantime, a slow machine): set the scenario up again before reporting anything
+			for try := 0; try < 3 && !res[i].Started; try++ {
+				time.Sleep(time.Duration(200*(try+1)) * time.Millisecond)
+				res[i] = run(scs[i], vh.NewRng(uint64(770+i+100*(try+1))), cert, keyf)
+			}
 		}(i)
 	}
 	wg.Wait()
